@@ -4,7 +4,7 @@ import TunnoxModel.Model.C17Slot
 /-!
 Line protocol for C17.
 
-case  := `p <proto> lim <L> pre <k> [dead <d>] thr <n> (<inst> <nops> (a|r|o)*)*   (a = admission, r = release own, o = admission of another client) sch <m> <tid>*`
+case  := `p <proto> lim <L> pre <k> [dead <d>] thr <n> (<inst> <nops> (a|r|o)*)*   (a = admission, r = release own, o = admission of another client, v = revoke own through the service, v<k> = revoke whose storage call k fails) sch <m> <tid>*`
 proto := `conn` | `conng` (connections without an id of their own: one step) | `ctrl` | `ctrlx` (Register with gated stream Close) | `tun` | `map` | `mapu` | `code` | `mapq`   (the instances of Model/C17; `mapu` = `map` with the limit taken from the user quota)
 obs   := event* `|` item*
 event := `stp.<tid>.<n>` | `blk.<tid>.<n>` | `adm.<tid>.<item>.<victim or ->.<n>` | `ref.<tid>.<dirty>.<n>`
@@ -63,6 +63,7 @@ def parseObs (ts : List String) : Option (List Ev × List Nat) := do
   else none
 
 structure Case where
+  dead : Nat := 0      -- entries in the client's index that are not active (connection codes only)
   proto : Proto
   limit : Nat
   pre : Nat
@@ -74,6 +75,12 @@ def parseOps : Nat → List String → Option (List Op × List String)
   | n + 1, "a" :: ts => do let (ops, rest) ← parseOps n ts; pure (.acquire :: ops, rest)
   | n + 1, "r" :: ts => do let (ops, rest) ← parseOps n ts; pure (.release :: ops, rest)
   | n + 1, "o" :: ts => do let (ops, rest) ← parseOps n ts; pure (.other :: ops, rest)
+  | n + 1, "v" :: ts => do let (ops, rest) ← parseOps n ts; pure (.revoke none :: ops, rest)
+  | n + 1, "v0" :: ts => do let (ops, rest) ← parseOps n ts; pure (.revoke (some 0) :: ops, rest)
+  | n + 1, "v1" :: ts => do let (ops, rest) ← parseOps n ts; pure (.revoke (some 1) :: ops, rest)
+  | n + 1, "v2" :: ts => do let (ops, rest) ← parseOps n ts; pure (.revoke (some 2) :: ops, rest)
+  | n + 1, "v3" :: ts => do let (ops, rest) ← parseOps n ts; pure (.revoke (some 3) :: ops, rest)
+  | n + 1, "v4" :: ts => do let (ops, rest) ← parseOps n ts; pure (.revoke (some 4) :: ops, rest)
   | _, _ => none
 
 def parseThreads : Nat → List String → Option (List (Nat × List Op) × List String)
@@ -85,15 +92,12 @@ def parseThreads : Nat → List String → Option (List (Nat × List Op) × List
     pure ((inst, ops) :: thrs, rest)
   | _, _ => none
 
-/-- `dead d`: the client has `d` revoked entries in its index; every count reads them too. -/
-def withDead (P : Proto) (d : Nat) : Proto := { P with cnt := fun n => if P.cnt 1 = 0 then 0 else P.cnt n + d }
-
 def parseCase (ts : List String) : Option Case :=
   match ts with
   | "p" :: p :: "lim" :: l :: "pre" :: k :: "dead" :: d :: "thr" :: nt :: rest => do
     let d ← d.toNat?
     let c ← parseCase ("p" :: p :: "lim" :: l :: "pre" :: k :: "thr" :: nt :: rest)
-    if p == "code" || p == "mapq" then pure { c with proto := withDead c.proto d } else none
+    if p == "code" then pure { c with dead := d } else if p == "mapq" then pure c else none
   | "p" :: p :: "lim" :: l :: "pre" :: k :: "thr" :: nt :: rest => do
     let P ← protoOf p; let l ← l.toNat?; let k ← k.toNat?; let nt ← nt.toNat?
     let (progs, rest) ← parseThreads nt rest
@@ -101,7 +105,7 @@ def parseCase (ts : List String) : Option Case :=
     | "sch" :: ns :: rest => do
       let ns ← ns.toNat?
       let sched ← natList rest
-      if sched.length = ns then pure ⟨P, l, k, progs, sched⟩ else none
+      if sched.length = ns then pure ⟨0, P, l, k, progs, sched⟩ else none
     | _ => none
   | _ => none
 
@@ -181,7 +185,7 @@ def runModel (ts : List String) : String :=
   match parseCase ts with
   | none => "bad-case"
   | some c =>
-    let fin := run c.proto c.limit (init c.pre c.progs) c.sched
+    let fin := run c.proto c.limit (initDead c.dead c.pre c.progs) c.sched
     renderObs fin.trace fin.occ
 
 def runHolds (caseToks obsToks : List String) : String :=
